@@ -159,6 +159,7 @@ def runBatchR (z : Nat) (s : Shard) (b : Batch) : Shard × List Nat :=
   ({ s with index := index, live := live }, drained)
 
 def compactRoundR (z : Nat) (s : Shard) : Shard :=
+  let s := loadIndex s
   let plans := planAll s.kmerge s.index
   let (s, drained) := (groupPlans plans).foldl (fun (acc : Shard × List Nat) b =>
     let (s', d) := runBatchR z acc.1 b
